@@ -56,6 +56,7 @@ func queryLexeme(class string, i int) RTok {
 }
 
 func parseQueryReal(src string) (tree []GT, ok bool, crash string) {
+	defer guard("parser.ParseQuery", src)()
 	defer func() {
 		if r := recover(); r != nil {
 			crash = fmt.Sprintf("panic: %v", r)
